@@ -18,7 +18,7 @@
 EXTENDS Integers, Sequences, FiniteSets, TLC
 
 WidgetClasses == {"QWidget", "QLabel", "QPushButton", "QGroupBox", "QToolBar", "QMenuBar", "QFrame", "Label1", "Widget2", "QDialog"}
-LayoutClasses == {"QVBoxLayout", "QHBoxLayout", "QFormLayout", "QGridLayout"}
+LayoutClasses == {"QVBoxLayout", "QHBoxLayout", "QFormLayout", "QGridLayout", "MyRow", "MyGrid"}     \* MyRow / MyGrid: QML components whose root object is a QHBoxLayout / QGridLayout
 Kind(cls) == IF cls \in LayoutClasses THEN "layout"
              ELSE IF cls = "QSpacerItem" THEN "spacer"
              ELSE IF cls = "QAction" THEN "action"
@@ -30,7 +30,7 @@ Prefix == [QWidget |-> "widget", QLabel |-> "label", QPushButton |-> "pushButton
            QMenuBar |-> "menuBar", QFrame |-> "frame", Label1 |-> "label1", Widget2 |-> "widget2", QDialog |-> "dialog",
            QVBoxLayout |-> "vboxLayout", QHBoxLayout |-> "hboxLayout", QFormLayout |-> "formLayout", QGridLayout |-> "gridLayout",
            QSpacerItem |-> "spacerItem", QAction |-> "action", QMenu |-> "menu", QTabWidget |-> "tabWidget",
-           MyMenu |-> "myMenu", MyWidget |-> "myWidget"]
+           MyMenu |-> "myMenu", MyWidget |-> "myWidget", MyRow |-> "myRow", MyGrid |-> "myGrid"]
 IsWidgetLike(k) == k \in {"widget", "menu", "tab"}
 Node(cls, id, kids) == [cls |-> cls, id |-> id, sep |-> FALSE, acts |-> <<>>, kids |-> kids]
 Sep(id) == [cls |-> "QAction", id |-> id, sep |-> TRUE, acts |-> <<>>, kids |-> <<>>]
